@@ -67,6 +67,8 @@ class Recorder:
     def tok(self, obj):
         if obj is None or obj is True or obj is False:
             return obj
+        if isinstance(obj, (int, str)):
+            return 'V:%r' % (obj,)
         if isinstance(obj, VExc):
             return 'X:' + obj.who
         if isinstance(obj, VResult):
@@ -152,7 +154,17 @@ class _JobBehaviour:
             rec.name(exc, 'X:' + who)
             rec.ev('exit', who, how='raise', obj=rec.tok(exc))
             raise exc
-        res = VResult(who)
+        kind = sp.get('ret', 'sentinel')
+        if kind == 'sentinel':
+            res = VResult(who)
+        elif kind in ('future-done', 'future-pending'):
+            # e.g. the handle of something the job started: the result is that very object
+            res = rec.loop.create_future()
+            if kind == 'future-done':
+                res.set_result(who)
+            rec.name(res, 'R:' + who)
+        else:
+            res = {'none': None, 'zero': 0, 'false': False, 'empty': ''}[kind]
         rec.ev('exit', who, how='return', obj=rec.tok(res))
         return res
 
